@@ -49,7 +49,7 @@ func init() {
 		Old: "\tb, suffix = removeUnderscoresAndSuffix(b)\n\tif suffix {\n\t\treturn append(b, 'n')\n\t}\n\treturn minify.Number(b, prec)", New: "\tb, suffix = removeUnderscoresAndSuffix(b)\n\tb = minify.Number(b, prec)\n\tif suffix {\n\t\treturn append(b, 'n')\n\t}\n\treturn b",
 		Rule: "R09.3", Construct: "decimalNumber"})
 	mutant(&Mutant{Name: "c09-dot-after-number-shortcut", Property: "C09", File: "js/js.go",
-		Old: "\t\tif js.OpMember <= prec || optionalLeft {\n\t\t\tm.minifyExpr(expr.X, js.OpMember)", New: "\t\tif lit, ok := expr.X.(*js.LiteralExpr); ok && lit.TokenType == js.DecimalToken {\n\t\t\tm.write(lit.Data)\n\t\t\tm.write(dotBytes)\n\t\t\tm.write(expr.Y.Data)\n\t\t\tbreak\n\t\t}\n\t\tif js.OpMember <= prec || optionalLeft {\n\t\t\tm.minifyExpr(expr.X, js.OpMember)",
+		Old: "\t\tif js.OpMember <= prec || isOptionalGroup(expr.X) {\n\t\t\tm.minifyExpr(expr.X, js.OpMember)", New: "\t\tif lit, ok := expr.X.(*js.LiteralExpr); ok && lit.TokenType == js.DecimalToken {\n\t\t\tm.write(lit.Data)\n\t\t\tm.write(dotBytes)\n\t\t\tm.write(expr.Y.Data)\n\t\t\tbreak\n\t\t}\n\t\tif js.OpMember <= prec || isOptionalGroup(expr.X) {\n\t\t\tm.minifyExpr(expr.X, js.OpMember)",
 		Rule: "R09.4", Construct: "property write"})
 	mutant(&Mutant{Name: "c09-throw-without-semicolon", Property: "C09", File: "js/js.go",
 		Old: "\t\tm.write(throwBytes)\n\t\tm.writeSpaceBeforeIdent()\n\t\tm.minifyExpr(stmt.Value, js.OpExpr)\n\t\tm.requireSemicolon()\n", New: "\t\tm.write(throwBytes)\n\t\tm.writeSpaceBeforeIdent()\n\t\tm.minifyExpr(stmt.Value, js.OpExpr)\n",
